@@ -854,6 +854,40 @@ def run(ctx):
                 ctx.check("spend", w)
                 v1 += version == 1
     ctx.count("solver", "version-1 with older()", v1)
+    # A multi() in EVERY child position of every combinator, spent through every branch (every key subset): the
+    # dynamic op cost of OP_CHECKMULTISIG (its key count, charged whether the quorum is met or dissatisfied) is the
+    # one cost that differs between the branches of one combinator, so a bound that forgets it for one branch shows
+    # only when that branch is the expensive one AND the one taken.  Executed op count (recorded inside the real
+    # engine) against max_ops, on the real code alone.
+    k = keys
+    atoms = [lambda i: f"pk({k[i]})", lambda i: f"multi(1,{k[i]},{k[i + 1]})",
+             lambda i: f"multi(2,{k[i]},{k[i + 1]},{k[i + 2]})", lambda i: f"multi(1,{k[i]},{k[i + 1]},{k[i + 2]})"]
+    forms = []
+    for fx in atoms:
+        for fz in atoms:
+            x, z = fx(0), fz(3)
+            forms += [f"or_d({x},{z})", f"or_i({x},{z})", f"or_b({x},a:{z})", f"and_b({x},a:{z})",
+                      f"and_v(v:{x},{z})", f"and_v(or_c({x},v:{z}),pk({k[6]}))"]
+            for fy in atoms:
+                y = fy(6)
+                forms += [f"andor({x},{y},{z})", f"thresh(1,{x},a:{y},a:{z})", f"thresh(2,{x},a:{y},a:{z})"]
+    rng.shuffle(forms)
+    qpos = qrun = 0
+    for text in forms[:ctx.n(90, len(forms))]:
+        try:
+            n = M.parse(text, P2WSH)
+        except BTClibValueError:
+            ctx.count("spend.quorum_positions", "not a valid expression")
+            continue
+        if not n.is_valid_top_level:
+            ctx.count("spend.quorum_positions", "not valid at top level")
+            continue
+        qpos += 1
+        for a in SP.all_avail(n, P2WSH, rng, limit=ctx.n(10, 64)):
+            ctx.check("spend", {"expr": text, "context": P2WSH, "avail": a})
+            qrun += 1
+    ctx.count("spend.quorum_positions", "expressions", qpos)
+    ctx.count("spend.quorum_positions", "spends judged", qrun)
     if INSANE_SIZER:
         ctx.count("solver", "sizer under-estimate on an insane expression (noted, not failed)", len(INSANE_SIZER))
         ctx.note("miniscript_sizer/max_witness_stack under-estimates the witness of an INSANE expression, e.g. "
